@@ -6,22 +6,25 @@
      raw0                 = line.raw[0].Orig()
      multiline            = line.IsMultiline() = len(line.raw) > 1
 
-   The differences to Model/MkLineSplit.v (one raw line, raw0 = text):
-     - the guard `if line.IsMultiline() && !contains(line.raw[0].Orig(), "=") { return false, nil }`
-       right after NewMkOperator and before everything that touches the raw line;
-     - getRawValueAlign walks line.raw[0].Orig(), not the logical text.
+   The differences to Model/MkLineSplit.v (one raw line, raw0 = text), repaired code:
+     - getRawValueAlign walks the text of the logical line (the first physical line without its
+       continuation backslash is a prefix of it);
+     - right after it, for a multi-line line,
+         firstLine := rtrimHspace(strings.TrimSuffix(line.raw[0].Orig(), "\\"))
+         if len(rtrimHspace(valueAlign)) > len(firstLine) { return false, nil }
+       i.e. the operator must end inside the first raw line.
    Definitions only. *)
 From PV Require Import Lib.Bytes Gen.MkByteSets Model.MkLexPrim Model.MkLexer Model.MkTokensLexer
   Model.MkLineSplit.
 From PV Require Model.Lines.
 Open Scope N_scope.
 
-(* contains(raw0, "=") *)
-Definition first_raw_has_equals (raw0 : str) : bool := contains_byte 61 raw0.
+(* rtrimHspace(strings.TrimSuffix(raw0, "\\")) *)
+Definition first_line_of (raw0 : str) : str := rtrim_hspace (Lines.trim_suffix [92] raw0).
 
 (* matchVarassign after the decision whether the line is a commented assignment;
    same statement order as the Go code *)
-Definition match_varassign_tail_ml (multiline : bool) (raw0 : str) (commented : bool) (sr : split_result)
+Definition match_varassign_tail_ml (multiline : bool) (raw0 text : str) (commented : bool) (sr : split_result)
     : res (option varassign) :=
   toks <- tokenize (sr_main sr) ;;
   let lexer0 := tl_new toks in
@@ -49,9 +52,6 @@ Definition match_varassign_tail_ml (multiline : bool) (raw0 : str) (commented : 
       (* NewMkOperator panics on anything else *)
       if negb (existsb (str_eqb op0) [[61]; [33; 61]; [58; 61]; [43; 61]; [63; 61]]) then Panic
       else
-        (* the operator is in a continuation line; not worth the trouble *)
-        if multiline && negb (first_raw_has_equals raw0) then Ok None
-        else
         let '(vname', op) :=
           if has_suffix [43] vname && str_eqb op0 [61] && negb (nonempty space_after_varname)
           then (firstn (length vname - 1) vname, [43; 61])
@@ -59,7 +59,10 @@ Definition match_varassign_tail_ml (multiline : bool) (raw0 : str) (commented : 
         let lexer6 := tl_lift (fun s => snd (next_bytes is_hspace s)) lexer5 in
         let value := trim_hspace (tl_rest lexer6) in
         let parsed_value_align := (if commented then [35] else []) ++ tl_since main_start lexer6 in
-        align <- get_raw_value_align raw0 parsed_value_align ;;
+        align <- get_raw_value_align text parsed_value_align ;;
+        (* the operator is in a continuation line; not worth the trouble *)
+        if multiline && (length (first_line_of raw0) <? length (rtrim_hspace align))%nat then Ok None
+        else
         let '(align', sr') :=
           match value with
           | [] => (align ++ sr_space_before_comment sr,
@@ -80,8 +83,8 @@ Definition match_varassign_ml (multiline : bool) (raw0 text : str) (first : spli
     else
       t1 <- skip 1 text ;;                             (* text[1:] *)
       sr <- split t1 true ;;
-      match_varassign_tail_ml multiline raw0 true sr
-  else match_varassign_tail_ml multiline raw0 false first.
+      match_varassign_tail_ml multiline raw0 text true sr
+  else match_varassign_tail_ml multiline raw0 text false first.
 
 (* Parse, for a line that does not start with a tab, up to matchVarassign *)
 Definition parse_varassign_ml (multiline : bool) (raw0 text : str) : res (option varassign) :=
